@@ -34,7 +34,10 @@ type Step struct {
 	UR bool   `json:"ur,omitempty"`
 	O  []int  `json:"o,omitempty"` // issue: name, schema, symbol, description, uri, uri_hash
 }
-type History struct{ Steps []Step }
+type History struct {
+	Steps []Step
+	ABCI  bool `json:"abci,omitempty"` // execute through InitChain / FinalizeBlock(signed txs) / Commit instead of the direct driver
+}
 
 const nActors = 4
 
@@ -157,7 +160,7 @@ func (sh *shadow) apply(st Step) {
 	case "transfer":
 		cl := sh.classes[st.C]
 		o, ok := sh.owner[[2]int{st.C, st.T}]
-		if cl == nil || !ok || o != st.S || st.R < 0 || !validData(st.D, true) {
+		if cl == nil || !ok || o != st.S || st.R < 0 || st.U == -1 || !validData(st.D, true) {
 			return
 		}
 		if cl.ur && !(st.N == 1 && st.U == 1 && st.H == 1 && st.D == 1) {
@@ -361,6 +364,7 @@ func gen(r *lib.Rand, tier, stream string, i int) History {
 			push(Step{K: "block"})
 		}
 	}
+	h.ABCI = stream == "abci"
 	return h
 }
 
@@ -532,8 +536,23 @@ func (w *world) observe(code int) string {
 
 func exec(h History) lib.Case {
 	var k nftkeeper.Keeper
-	e := lib.NewEnv(lib.EnvOpts{NActors: nActors, Consumers: []interface{}{&k}})
-	e.Blockers = []string{"nft"}
+	var e *lib.Env
+	deliver := func(msg sdk.Msg) lib.Outcome { return e.Deliver(msg) }
+	nextBlock := func() {
+		e.EndBlock()
+		e.BeginBlock(5 * time.Second)
+	}
+	if h.ABCI {
+		ae := lib.NewABCIEnv(nActors, []interface{}{&k})
+		defer ae.Close()
+		e = ae.Env
+		// one signed transaction per message, one block per transaction
+		deliver = func(msg sdk.Msg) lib.Outcome { return ae.DeliverBlock(5*time.Second, msg)[0] }
+		nextBlock = func() { ae.DeliverBlock(5 * time.Second) }
+	} else {
+		e = lib.NewEnv(lib.EnvOpts{NActors: nActors, Consumers: []interface{}{&k}})
+		e.Blockers = []string{"nft"}
+	}
 	w := &world{e: e, k: k}
 	c := lib.Case{Stats: map[string]int{}}
 	var terms []string
@@ -570,8 +589,7 @@ func exec(h History) lib.Case {
 			msg = &nfttypes.MsgTransferDenom{Id: classStr(st.C), Sender: addrStr(e, st.S), Recipient: addrStr(e, st.R)}
 			term = lib.App("TransferDenom", z(st.S), z(st.C), z(st.R))
 		default:
-			e.EndBlock()
-			e.BeginBlock(5 * time.Second)
+			nextBlock()
 			lib.Stat(c.Stats, "op:block")
 			c.Steps = append(c.Steps, "block")
 			terms = append(terms, lib.Pair("Block", w.observe(0)))
@@ -596,7 +614,7 @@ func exec(h History) lib.Case {
 				restricted = den.UpdateRestricted
 			}
 		}
-		out := e.Deliver(msg)
+		out := deliver(msg)
 		lib.Stat(c.Stats, "res:"+out.Kind)
 		if entitled >= 0 && st.S >= 0 {
 			if st.S != entitled {
